@@ -438,4 +438,6 @@ def layout_programs():
     # a packet that itself has a match field and is reached from two different packets (as first match target and as
     # object field): anything cached per packet during generation is keyed by WHO asked first
     P.append(("det-shared-matching-payload", "packet NewOrder {\n    u32 qty,\n}\npacket Cancel {\n    u64 id,\n}\npacket Business {\n    u8 Kind,\n    match Kind as Detail {\n        1 : NewOrder,\n        2 : Cancel,\n    },\n}\npacket TcpFrame {\n    u8 T,\n    match T as Body {\n        1 : Business,\n    },\n}\npacket UdpFrame {\n    u8 U,\n    match U as Body {\n        1 : Business,\n    },\n    Business extra,\n}\nroot packet Wire {\n    TcpFrame,\n    UdpFrame,\n}\n"))
+    # string keys that contain escapes (each target must carry the DSL literal into its own string syntax unchanged)
+    P.append(("det-escaped-keys", "packet Logout {\n    u8 a,\n}\npacket Heartbeat {\n    u16 b,\n}\nroot packet Msg {\n    string Kind,\n    match Kind as Body {\n        \"a\\\\b\" : Logout,\n        [\"x\", \"say \\\"hi\\\"\"] : Heartbeat,\n        \"plain\" : Logout,\n    },\n}\n"))
     return P
